@@ -104,6 +104,87 @@ def one(name):
     return name, out
 
 
+class _Ev(object):
+    """what a replay needs of an evidence object"""
+    def __init__(self):
+        self.cov = {}
+
+    def tlc(self, *a, **k):
+        pass
+
+    def case(self, *a, **k):
+        pass
+
+
+class _Chk(object):
+    quick, seed = True, 0
+
+    def __init__(self):
+        self.ev = _Ev()
+        self.violations = []
+
+    def violation(self, rec, dedup=None):
+        self.violations.append(rec)
+
+
+def replays():
+    """spec -> code bindings: each composed machine is replayed on the library as it is (no violation allowed) and on
+    the library with ONE in-memory perturbation of the kind a slip would make (a violation must be reported).  A
+    replay that stays silent under the perturbation constrains nothing."""
+    from .core.lib import mod
+    from .props.c13_changer import changer
+    from .props.c13_reservations import reservations
+    from .props.c13_modepages import modepages
+    from .props.c13_satdisk import satdisk
+    out = []
+
+    def swap_move():
+        K = mod("pyscsi.pyscsi.scsi_cdb_movemedium").MoveMedium
+        b = K._cdb_bits
+        old = (b["source_address"], b["destination_address"])
+        b["source_address"], b["destination_address"] = old[1], old[0]
+        return lambda: b.update(source_address=old[0], destination_address=old[1])
+
+    def swap_keys():
+        b = mod("pyscsi.pyscsi.scsi_cdb_persistentreserveout").PersistentReserveOut._basic_parameter_list_bits
+        old = (b["reservation_key"], b["service_action_reservation_key"])
+        b["reservation_key"], b["service_action_reservation_key"] = old[1], old[0]
+        return lambda: b.update(reservation_key=old[0], service_action_reservation_key=old[1])
+
+    def swp_mask():
+        b = mod("pyscsi.pyscsi.scsi_enum_modesense").control_bits
+        old = b["swp"]
+        b["swp"] = [0x04, 2]
+        return lambda: b.update(swp=old)
+
+    def flat_lba():
+        K = mod("pyscsi.pyscsi.scsi_cdb_atapassthrough16").ATAPassThrough16
+        real = K.__dict__["scsi_to_ata_lba_convert"]
+        K.scsi_to_ata_lba_convert = staticmethod(lambda lba: lba)
+        return lambda: setattr(K, "scsi_to_ata_lba_convert", real)
+
+    for name, fn, perturb in (("Changer", changer, swap_move), ("Reservations", reservations, swap_keys),
+                              ("ModePages", modepages, swp_mask), ("SatDisk", satdisk, flat_lba)):
+        c = _Chk()
+        fn(c, mini=True)
+        msg = []
+        if c.violations:
+            msg.append("%s: the unchanged library is reported: %s" % (name, str(c.violations[0])[:300]))
+        undo = perturb()
+        try:
+            c2 = _Chk()
+            fn(c2, mini=True)
+        finally:
+            undo()
+        if not c2.violations:
+            msg.append("%s: the perturbed library is NOT reported" % name)
+        print("REPLAY  %-16s %s" % (name, "ok (library accepted, perturbation reported: %s)" % c2.violations[0]["clause"] if not msg else "FAILED"))
+        for m in msg:
+            print("   ", m)
+        out += msg
+    return len(out)
+
+
 def main():
     bad = 0
     with cf.ThreadPoolExecutor(max_workers=8) as ex:
@@ -112,6 +193,7 @@ def main():
             for o in out:
                 print("   ", o)
                 bad += 1
+    bad += replays()
     sys.exit(1 if bad else 0)
 
 
